@@ -61,7 +61,18 @@ pub fn run(args: &Args) {
         "(L (el 100 (A (99 (d 0))) (C (dtext 0))) (oncleanup 0 1) (oncleanup 1 3) (dview 1 (alt (el 97 (A) (C))) (alt (el 98 (A) (C)))))",
         "(L (el 112 (A (104 (b 0))) (C (dtext 0) (el 98 (A) (C (dtext 1))))) (oncleanup 0 6) (oncleanup 1 0))",
     ];
-    for f in fam_cl.iter().chain(fam_ns.iter()).chain(fam_k.iter()).chain(fam_nh.iter()).chain(fam.iter()) {
+    // state written WHILE the page is built (further down) that is displayed further up by dynamic texts / attributes:
+    // the server output shows the final state, inside other dynamic regions too (which do not re-run for it)
+    let fam_sn: Vec<&str> = vec![
+        "(L (el 104 (A) (C (dtext 0))) (el 112 (A) (C (text 97) (dtext 0))) (setnow 0 5))",
+        "(L (dview 1 (alt (el 97 (A) (C)) (dtext 0) (el 98 (A) (C (dtext 0)))) (alt (dtext 0) (el 99 (A) (C)))) (setnow 0 6) (el 100 (A) (C (dtext 0))))",
+        "(L (el 100 (A) (C (dview 1 (alt (el 97 (A) (C (dtext 0)))) (alt (dtext 0))))) (setnow 0 3) (setnow 0 7))",
+        // the written signal is displayed by a dynamic ATTRIBUTE: the server evaluates attributes once, inside the tracking
+        // scope of the enclosing dynamic view (known finding D25)
+        "(L (el 104 (A) (C (dtext 0))) (el 112 (A (99 (d 0))) (C (text 97))) (setnow 0 5))",
+        "(L (dview 1 (alt (el 99 (A (105.100 (d 0))) (C))) (alt (el 101 (A (104 (b 0))) (C)))) (setnow 0 6))",
+    ];
+    for f in fam_sn.iter().chain(fam_cl.iter()).chain(fam_ns.iter()).chain(fam_k.iter()).chain(fam_nh.iter()).chain(fam.iter()) {
         let Some(Sx::L(l)) = sx_parse(f) else { continue };
         let vds: Vec<VD> = l[1..].iter().map(|s| rd(s).unwrap()).collect();
         for (st, ws) in [(vec![0u32, 0], "0=1,1=1,0=2,1=2"), (vec![1, 1], "1=2,0=0,0=1,1=3"), (vec![3, 2], "0=3,0=4,1=5"), (vec![4, 1], "0=5,0=2,1=2,0=0")] { push(&vds, &st, ws); }
